@@ -6,6 +6,17 @@ instance serves while its backend grows.  MCLogConfig.tla enumerates the cases (
 groups, all multi-configs of the bounded shape, seeded draws from the full product) and exports them with the model's
 verdict; the Go harness (harness/c15) materializes every case as configpb messages and compares trillian/ctfe's behaviour.
 
+The external-storage connection string is a SHAPE (LogConfig.tla: leading word in nine classes - none, the three schemes the
+storage layer knows, a known scheme with something appended, in another letter case, cut short, any other word - x number of
+"://" separators 0 / 1 / 2+ x where the surplus separator sits (scheme written twice, user, password, address, path,
+parameters) x what the driver's own parser makes of the data source name: accepted, empty, refused; 162 shapes).  Usable =
+the storage layer, given the string, gets as far as dialling (UsableMeansStorageOpens; the decision structure of
+storage.NewIssuanceChainStorage / mysql open / postgresql open + first connection is a second definition, TLC checks the two
+coincide).  ConnSweep presents every shape with either backend over every base; harness/c15/conn.go gives every shape 2-40
+concrete spellings (MySQL DSNs, PostgreSQL URLs and keyword/value forms), validates every spelling, and runs the REAL
+storage constructors on every spelling (klog.OsExit and the MySQL driver's dial hook intercepted: nothing is dialled, the
+process survives the constructors' klog.Exitf): they must open exactly the spellings of usable shapes.
+
 History layer (spec/ctfe/LogConfigHist.tla): validation is a FUNCTION of the configuration.  A session is a sequence of
 validations in one process; consecutive configurations differ in one component (a plain field, the public key among two
 keys of one kind, one component of the frozen STH: timestamp, tree size, root hash, signature value, hash length), with
@@ -28,6 +39,12 @@ ASSUME = [
     "(adjacent values, ends of the timestamp range, around the half second, around the int64-nanosecond horizon), a merge "
     "delay one of four ranks read in five scales up to the ends of int32; "
     "ECDSA P-256 / RSA-2048 keys and SHA-256 trees are real, generated per run",
+    "the connection string is a shape (leading word class, number and place of '://' separators, the driver parser's view of the "
+    "data source name), each shape materialized in 2-40 concrete spellings; 'the driver's parser' is go-sql-driver/mysql ParseDSN and "
+    "pgconn.ParseConfig as linked into the harness (the catalogue of accepted / refused data source names is checked against them on "
+    "every run); 'usable' is decided by the repository's own storage constructors up to the point of dialling (nothing is dialled: "
+    "the MySQL driver's dial hook and klog.OsExit are intercepted; a PostgreSQL string is parsed by its driver at the first statement, "
+    "whose connect to 127.0.0.1:9 / a socket path that does not exist fails at once); PG* environment variables are unset",
     "nil elements inside repeated fields and a nil *LogConfig argument are outside the domain (not producible by decoding a file)",
     "instances are built for the Trillian-gRPC chain storage backend only (the external backend dials a database in SetUpInstance); "
     "the mirror's STH storage honours its interface contract (largest held STH not above the size it is asked for)",
@@ -121,7 +138,7 @@ def run(ctx, replay=None):
     ctx.exhaustive = ("every pair and selected triples of field groups in full product over four base configurations, the full "
                       "product of NotAfter bound states (31 x 31: absent or (seconds, nanos) rank pairs incl. out-of-range components) "
                       "over every base, every named spelling of a frozen STH that does not verify (one of timestamp / tree size / root hash / signature value / key differs "
-                      "from what was signed, each in four concrete readings) x key states x log kind over every base (%d single configs; a window with both bounds is validated in all four spellings), all lists of <= 2 configs over 18 variants, all multi-configs with <= 2 backends "
+                      "from what was signed, each in four concrete readings) x key states x log kind over every base, every shape of the connection string (162: leading word x separators x place of the surplus separator x data source name) x backend over every base with every concrete spelling validated and given to the storage constructors (%d single configs; a window with both bounds is validated in all four spellings), all lists of <= 2 configs over 18 variants, all multi-configs with <= 2 backends "
                       "(name, spec in 3 states each) x <= 2 logs (4 varying fields) x Backends/LogConfigs absent (%d); the full "
                       "product of field states (3.4e9) is sampled by seeded draws" % (len(cases) - drawn, len(multis)))
     # 3. behaviours of the instance machine: transition cover + random walks
